@@ -37,6 +37,8 @@ pub struct FaultReader<'a> {
     pub step: usize,
     /// (bytes offered by the caller, bytes delivered) for each call.
     pub log: Vec<(usize, Option<usize>)>,
+    /// Message of the last error this reader returned (every error it makes is unique).
+    pub last_error: Option<String>,
 }
 
 impl<'a> FaultReader<'a> {
@@ -47,6 +49,7 @@ impl<'a> FaultReader<'a> {
             script,
             step: 0,
             log: vec![],
+            last_error: None,
         }
     }
 }
@@ -60,11 +63,15 @@ impl std::io::Read for FaultReader<'_> {
         let n = match step {
             Step::Interrupted => {
                 self.log.push((buf.len(), None));
-                return Err(std::io::Error::new(ErrorKind::Interrupted, "scripted EINTR"));
+                let msg = format!("scripted EINTR (call #{})", self.log.len());
+                self.last_error = Some(msg.clone());
+                return Err(std::io::Error::new(ErrorKind::Interrupted, msg));
             }
             Step::Error(k) => {
                 self.log.push((buf.len(), None));
-                return Err(std::io::Error::new(KINDS[k as usize % KINDS.len()], "scripted failure"));
+                let msg = format!("scripted failure (call #{})", self.log.len());
+                self.last_error = Some(msg.clone());
+                return Err(std::io::Error::new(KINDS[k as usize % KINDS.len()], msg));
             }
             Step::Eof => 0,
             Step::Deliver(k) => (k as usize).max(1).min(buf.len()).min(left),
@@ -190,6 +197,15 @@ fn compare(what: &str, case_desc: &str, reader: &FaultReader<'_>, want: &Expecte
         (Err(e), Err(kind)) => {
             if e.kind() != *kind {
                 return Err(Fail::new(format!("{what}:error-kind"), format!("{case_desc}: failed with {:?}, the last error was {kind:?}", e.kind())));
+            }
+            // "Fails with the last error": the reader's own error object, not a lookalike of the same kind.
+            if let Some(last) = &reader.last_error {
+                if e.to_string() != *last || e.get_ref().is_none() {
+                    return Err(Fail::new(
+                        format!("{what}:error-identity"),
+                        format!("{case_desc}: failed with \"{e}\" (payload kept: {}), the reader's last error was \"{last}\"", e.get_ref().is_some()),
+                    ));
+                }
             }
         }
         (Ok(bytes), Err(kind)) => {
